@@ -5,6 +5,8 @@ import (
 	"errors"
 )
 
+// encodeIndent was a debug-print nesting counter; EncodeTo no longer updates it
+// (a package-level counter written by every ParsePKCS7 call is a data race).
 var encodeIndent = 0
 
 type asn1Object interface {
@@ -18,7 +20,6 @@ type asn1Structured struct {
 
 func (s asn1Structured) EncodeTo(out *bytes.Buffer) error {
 	//fmt.Printf("%s--> tag: % X\n", strings.Repeat("| ", encodeIndent), s.tagBytes)
-	encodeIndent++
 	inner := new(bytes.Buffer)
 	for _, obj := range s.content {
 		err := obj.EncodeTo(inner)
@@ -26,7 +27,6 @@ func (s asn1Structured) EncodeTo(out *bytes.Buffer) error {
 			return err
 		}
 	}
-	encodeIndent--
 	out.Write(s.tagBytes)
 	encodeLength(out, inner.Len())
 	out.Write(inner.Bytes())
